@@ -11,7 +11,7 @@
    observed by the correspondence check, not proved. *)
 From Coq Require Import String Ascii List Bool Arith ZArith.
 Import ListNotations.
-Require Import PyBase Generated PyStr Symbols ParseEq ParseModel Classify BuildDef BuildDefFacts BuildDefExamples BuildRepr BuildReprFacts.
+Require Import PyBase Generated PyStr Symbols ParseEq ParseModel Classify BuildDef BuildDefFacts BuildDefExamples BuildRepr BuildReprFacts BuildIndentFacts.
 Open Scope string_scope.
 
 (* the typed and the untyped template are the same text once the type hints are erased (kernel-checked on the strings
@@ -129,6 +129,13 @@ Print Assumptions C15_empty_symbols.
 Theorem C15_indent_empty_prefix : forall text, indent "" text = text.
 Proof. exact indent_empty_prefix. Qed.
 Print Assumptions C15_indent_empty_prefix.
+
+(* … and on text whose lines are separated by "\n" the lines stay the same lines: each one that is not whitespace-only gets
+   the prefix, nothing else of the converter's output changes *)
+Theorem C15_indent_line_by_line : forall p ls,
+  forallb no_sep ls = true -> indent p (join_nl ls) = join_nl (map (indent_line p) ls).
+Proof. exact indent_join_nl. Qed.
+Print Assumptions C15_indent_line_by_line.
 
 (* build_model: when the text executes, the class is exec(text) and CODE is that text … *)
 Theorem C15_build_model_is_exec_of_text : forall St Cls (conv : St -> symbol -> St * string) (exec : string -> exec_res Cls) st syms o h st' text c,
